@@ -1098,5 +1098,5 @@ def shrink_candidates(obj):
 
 def plan(tier):
     if tier == "thorough":
-        return {"runs": 200000, "chunk": 50, "wall_budget": 3300, "resample": 200, "shrink_budget": 120}
+        return {"runs": 60000, "chunk": 50, "wall_budget": 3300, "resample": 100, "shrink_budget": 120}
     return {"runs": 1600, "chunk": 20, "wall_budget": 900, "resample": 30, "shrink_budget": 60}
